@@ -596,6 +596,11 @@ def check(ctx):
             env = {"NUMBA_NUM_THREADS": str(tmax)}
             cache = "par"
         jobs.append({"name": "h%02d" % k, "ops": ops, "env": env, "cache": cache, "kind": "history"})
+    # targeted pairs: a solve right after the neighbour that shares its padded extent (smaller interior) or its padded
+    # geometry (fewer retained modes) - the histories on which a work buffer that is only partly rewritten shows
+    pair_ids = [cid for cid in ids if re.match(r"^S\d+[sm]$", cid)]
+    for k, cid in enumerate(pair_ids[: (8 if ctx.thorough else 4)]):
+        jobs.append({"name": "hp%02d" % k, "ops": [["solve", base_of(cid)], ["solve", cid], ["solve", base_of(cid)]], "env": {}, "cache": "ser", "kind": "history"})
     # (2) alone references: every (solve, thread setting) of the histories, plus one-thread references
     need = set()
     for j in jobs:
